@@ -276,8 +276,8 @@ impl Check for C10 {
                     continue;
                 }
                 for ghost in [false, true] {
-                    // the ghost variant on two tables (quick) / all tables (thorough), finite limits only
-                    if ghost && (lim.is_none() || (tier == Tier::Quick && ti >= 2)) {
+                    // the ghost variant on two tables (quick) / four tables (thorough), finite limits only
+                    if ghost && (lim.is_none() || ti >= tier.pick(2, 4)) {
                         continue;
                     }
                     for a in &alpha {
